@@ -291,9 +291,19 @@ static int compile_file(const char *input_file, const char *output_file, Compile
     long size = ftell(file);
     fseek(file, 0, SEEK_SET);
 
-    char *source = malloc(size + 1);
-    fread(source, 1, size, file);
-    source[size] = '\0';
+    /* fopen() also succeeds on a directory; ftell() then reports LONG_MAX or -1 */
+    char *source = (size >= 0 && size <= (1L << 30)) ? malloc((size_t)size + 1) : NULL;
+    if (!source) {
+        fprintf(stderr, "Error: Could not read file '%s'\n", input_file);
+        fclose(file);
+        diags_push_simple(diags, CompilerPhase_PHASE_LEXER, DiagnosticSeverity_DIAG_ERROR, "CIO01", "Could not read input file");
+        llm_emit_diags_json(opts->llm_diags_json_path, input_file, output_file, 1, diags);
+        llm_emit_diags_toon(opts->llm_diags_toon_path, input_file, output_file, 1, diags);
+        nl_list_CompilerDiagnostic_free(diags);
+        return 1;
+    }
+    size_t got = fread(source, 1, (size_t)size, file);
+    source[got] = '\0';
     fclose(file);
 
     if (opts->verbose) printf("Compiling %s...\n", input_file);
